@@ -76,8 +76,8 @@ def shards(tier):
     for i in range(4):
         out.append({'name': 'notification-codes-%d' % i, 'kind': 'notif', 'part': i, 'parts': 4})
     out.append({'name': 'short-messages', 'kind': 'short'})
-    nw = 150 if tier == 'quick' else 12000
-    for i in range(4 if tier == 'quick' else 16):
+    nw = 400 if tier == 'quick' else 12000
+    for i in range(8 if tier == 'quick' else 16):
         out.append({'name': 'walks-%d' % i, 'kind': 'walk', 'examples': nw, 'hypothesis': True,
                     'steps': 60 if tier == 'quick' else 110})
     return out
